@@ -37,12 +37,14 @@ def _same(a, b):
     return a == b
 
 
-def _agree(ctx, E, model, tag, probe):
+def _agree(ctx, E, model, tag, probe, reverse=True):
     ctx.check(tag + "names are exactly the model's", sorted(E.keys) == ctx.oracle_struct(sorted(model.keys())),
               "%r vs %r" % (E.keys, list(model)))
     for n, v in model.items():
         got = getattr(E, n, "<missing>")
         ctx.check(tag + "value of %s" % n, (got is v) or (got == ctx.oracle(v)))
+    if not reverse:
+        return
     # reverse look-up of an arbitrary probe value: first name (in supply order) carrying it, else ""
     want = ""
     for n, v in model.items():
@@ -70,7 +72,11 @@ def h_history(ctx, k, form, nnames, kind):
     for e in (0, 1):
         _agree(ctx, enums[e], models[e], "initial/enum%d: " % e, probe)
     ops = ["add:" + n for n in names] + ["remove:" + n for n in names] + ["get:" + n for n in names] + ["reverse"]
+    # a reverse look-up is itself an operation that may touch state (a memo of earlier answers): in one half of the
+    # histories every intermediate state is probed, in the other only the first and the last one
+    every = ctx.choose("probe-every-step", ["yes", "no"]) == 0 if k > 1 else True
     for step in range(k):
+        rev = every or step == k - 1
         which = ctx.choose("enum%d" % step, ["first", "second"])
         op = ops[ctx.choose("op%d" % step, ops)]
         E, M = enums[which], models[which]
@@ -100,9 +106,9 @@ def h_history(ctx, k, form, nnames, kind):
                 ctx.check(tag + "look-up returns the value", st == "ok" and ((r is M[n]) or (r == ctx.oracle(M[n]))))
             else:
                 ctx.check(tag + "look-up of a missing name raises AttributeError", ctx.oracle(st == "exc" and type(r) is AttributeError))
-        _agree(ctx, E, M, tag, probe)
+        _agree(ctx, E, M, tag, probe, rev)
         ctx.check(tag + "the other enumeration is untouched", models[1 - which] == other_before)
-        _agree(ctx, enums[1 - which], models[1 - which], tag + "other: ", probe)
+        _agree(ctx, enums[1 - which], models[1 - which], tag + "other: ", probe, rev)
 
 
 def h_opcode_enums(ctx, same_table):
